@@ -29,7 +29,9 @@ def patches():
         pf = os.path.join(d, 'patch.diff')
         if os.path.exists(meta) and os.path.exists(pf):
             m = json.load(open(meta))
-            out.append(('seeded/' + os.path.basename(d), pf, m.get('caught_by') or [m['property']], False))
+            # meta "expect": "silent" marks a behaviour-preserving rewrite: the owning check must not raise an alarm
+            out.append(('seeded/' + os.path.basename(d), pf, m.get('caught_by') or [m['property']],
+                        m.get('expect') == 'silent'))
     return out
 
 
